@@ -992,6 +992,11 @@ def fam_race_core(tier="quick"):
     add("Ch2", ["U", "U", "H"], [["cw 0", "sd 2 5"], ["cw 1", "sd 2 6"], ["rv 2", "rv 2", "cr 0", "cr 1"]])
     add("Ch2", ["U", "U", "H"], [["cw 0", "sd 2 5", "cw 1", "sd 2 6"], ["rv 2", "cr 0", "rv 2", "cr 1"]])
     add("Cht", ["U", "H"], [["cw 0", "sd 1 5"], ["trv 1", "cr 0"]])
+    # two messages queued when the receiver starts (a relaxed flag orders execution, not happens-before): the
+    # receive of the FIRST message does not cover what the sender did after sending it
+    add("Chq", ["U", "H", "A0"], [["sd 1 5", "cw 0", "sd 1 6", "st 2 1 rlx"], ["aw 2 1 rlx", "rv 1", "cr 0", "rv 1"]])
+    add("Chq", ["U", "H", "A0"], [["sd 1 5", "cw 0", "sd 1 6", "st 2 1 rlx"], ["aw 2 1 rlx", "rv 1", "rv 1", "cr 0"]])
+    add("Chq", ["U", "H", "A0", "A0"], [["sd 1 5", "st 2 1 rlx"], ["aw 2 1 rlx", "cw 0", "sd 1 6", "st 3 1 rlx"], ["aw 3 1 rlx", "rv 1", "cr 0", "rv 1"]])
     # park / unpark (thread 2 parks, thread 1 unparks it)
     add("Pk", ["U", "A0"], [["cw 0", "up 2"], ["pk", "cr 0"]])
     add("Pk", ["U", "A0"], [["up 2", "cw 0"], ["pk", "cr 0"]])
@@ -1000,6 +1005,10 @@ def fam_race_core(tier="quick"):
     L.append(prog_line(f"rcJn{n[0]}", ["U"], [["cw 0", "sp 1", "jn 1", "cr 0"], ["cr 0", "cw 0"]])); n[0] += 1
     L.append(prog_line(f"rcJn{n[0]}", ["U"], [["sp 1", "cw 0", "jn 1"], ["cr 0"]])); n[0] += 1
     L.append(prog_line(f"rcJn{n[0]}", ["U"], [["sp 1", "sp 2", "jn 1", "jn 2", "cr 0"], ["cw 0"], ["cr 0"]])); n[0] += 1
+    # a lazy static that is already initialised is no rendezvous: an access acquires what the INITIALISER released,
+    # it releases nothing itself
+    L.append(prog_line(f"rcLz{n[0]}", ["U", "A0"], [["lz 0", "sp 1", "sp 2", "jn 1", "jn 2"], ["cw 0", "lz 0", "st 1 1 rlx"], ["aw 1 1 rlx", "lz 0", "cr 0"]])); n[0] += 1
+    L.append(prog_line(f"rcLz{n[0]}", ["U", "A0"], [["lz 0", "sp 1", "sp 2", "jn 1", "jn 2"], ["cw 0", "lz 0", "st 1 1 rel"], ["aw 1 1 acq", "lz 0", "cr 0"]])); n[0] += 1
     # fences only
     add("Fsc", ["U", "A0"], [["cw 0", "fn sc", "st 1 1 rlx"], ["aw 1 1 rlx", "fn sc", "cr 0"]])
     add("Fsc", ["U", "A0"], [["cw 0", "fn sc"], ["fn sc", "cr 0"]])
@@ -1059,6 +1068,9 @@ def fam_tls_core(tier="quick"):
     z = ["lz 2", "lz 2 ; lz 2", "lz 0 ; lz 2", "st 0 1 sc ; lz 2"]
     L += exhaustive("tlZ", ["A0"], [z, z], 1)
     L += exhaustive("tlY", ["A0"], [["lz 2"], ["lz 2"], ["lz 2", "ld 0 sc ; lz 2"]], 1)
+    # an initialised lazy static is no rendezvous (race oracle in C17.extra)
+    L.append(prog_line("tlRc0", ["U", "A0"], [["lz 0", "sp 1", "sp 2", "jn 1", "jn 2"], ["cw 0", "lz 0", "st 1 1 rlx"], ["aw 1 1 rlx", "lz 0", "cr 0"]]))
+    L.append(prog_line("tlRc1", ["U", "A0"], [["lz 0", "sp 1", "sp 2", "jn 1", "jn 2"], ["cw 0", "lz 0", "st 1 1 rel"], ["aw 1 1 acq", "lz 0", "cr 0"]]))
     L.append(prog_line("tlS3", ["A0"], [["lz 2", "lz 2"]]))
     return L
 
